@@ -510,10 +510,14 @@ fn process(cfg: CliOptions) -> Vec<RuntimeError> {
         service.path = service_output_path;
 
         if cfg.dry_run {
-            println!("---{:?}---", service.path());
-            _ = io::stdout()
-                .write(service.to_string().as_bytes())
-                .expect("should write to STDOUT");
+            // a closed pipe or a full device on STDOUT is an error to report, not a reason to panic
+            let text = format!("---{:?}---\n{}", service.path(), service.to_string());
+            if let Err(e) = io::stdout().write_all(text.as_bytes()) {
+                prev_errors.push(RuntimeError::Io(
+                    format!("Printing service file {:?}", service.path()),
+                    e,
+                ));
+            }
             // NOTE: currently setting entries can fail, because of (un-)quoting errors, so we can't fail here any more
             // TODO: revisit this decision, then we could use the following code ...
             /*match service.to_string() {
